@@ -433,6 +433,74 @@ def MP.init : MP :=
   { p := Parser.init, k := Caps.init, sgen := 1, fault := false,
     capok := ⟨Nat.le_refl _, by show 1 ≤ growCap 0 0; exact growCap_fits 0 0, Nat.le_refl _⟩ }
 
+/-! ### parser/insert, clone, parser/state -/
+
+theorem jumpCap_fits (cap n : Nat) : n ≤ jumpCap cap n := by
+  unfold jumpCap
+  by_cases h : cap < n
+  · rw [if_pos h]; exact Nat.le_mul_of_pos_left _ (by decide)
+  · rw [if_neg h]; omega
+
+/-- string branch of `cfun_parse_insert`: grow the scratch buffer in one jump, `safe_memcpy(p->buf + p->bufcount, str, slen)` -/
+def bufAppendM (m : MP) (bs : List B) : MP :=
+  { p := { m.p with buf := m.p.buf ++ bs },
+    k := { m.k with buf := jumpCap m.k.buf (m.p.buf.length + bs.length) },
+    sgen := m.sgen,
+    fault := m.fault || !decide (m.p.buf.length + bs.length ≤ jumpCap m.k.buf (m.p.buf.length + bs.length)),
+    capok := ⟨by simpa using jumpCap_fits m.k.buf (m.p.buf.length + bs.length), m.capok.2.1, m.capok.2.2⟩ }
+
+/-- first half of `cfun_parse_insert`: `s = p->states + p->statecount - 1; if (s->consumer == tokenchar) { consume(p, ' '); column-- }` -/
+def insertPreM (scan : List B → Option String) (m : MP) : MP × Option String :=
+  let sp := topPtr m
+  let m := m.chk (derefOk m sp)
+  if (readState m sp).consumer == .tokenchar then
+    match checkDead m.p with
+    | some msg => (m, some msg)
+    | none => ((consumeRawM scan m 32).scal (fun p => { p with column := p.column - 1 }) ⟨rfl, rfl, rfl⟩, none)
+  else (m, none)
+
+/-- second half: `s` is recomputed after the consume; `if (s->flags & PFLAG_COMMENT) s--;` must stay inside the block -/
+def insertAtM (m : MP) (v : Value) (vstr : List B) : MP × Option String :=
+  let sp := topPtr m
+  let m := m.chk (derefOk m sp)
+  let cm := hasFlag (readState m sp).flags PFLAG_COMMENT
+  let m := if cm then m.chk (decide (0 < sp.idx)) else m
+  let sp : SPtr := if cm then { sp with idx := sp.idx - 1 } else sp
+  let m := m.chk (derefOk m sp)
+  let s := readState m sp
+  if hasFlag s.flags PFLAG_CONTAINER then
+    let m := writeState m sp (fun f => { f with argn := f.argn + 1 })
+    let isRoot := if insertRootTestByFrame then sp.idx == 0 else m.p.states.length == 1
+    if isRoot then
+      (pushArgM (m.scal (fun p => { p with pending := p.pending + 1 }) ⟨rfl, rfl, rfl⟩) (Value.tuple false smNone smNone [v]), none)
+    else (pushArgM m v, none)
+  else if hasFlag s.flags (PFLAG_STRING ||| PFLAG_LONGSTRING) then (bufAppendM m vstr, none)
+  else (m, some "cannot insert value into parser")
+
+/-- `cfun_parse_insert` -/
+def insertM (scan : List B → Option String) (m : MP) (v : Value) (vstr : List B) : MP × Option String :=
+  match insertPreM scan m with
+  | (m, some e) => (m, some e)
+  | (m, none) => insertAtM m v vstr
+
+/-- `janet_parser_clone`: three fresh blocks of exactly `count` elements, `memcpy` of `count` elements out of the source blocks -/
+def cloneM (m : MP) : MP :=
+  { p := clone m.p, k := cloneK m.p, sgen := m.sgen + 1,
+    fault := m.fault || !(decide (m.p.buf.length ≤ m.k.buf) && decide (m.p.states.length ≤ m.k.states) && decide (m.p.args.length ≤ m.k.args)),
+    capok := ⟨Nat.le_refl _, Nat.le_refl _, Nat.le_refl _⟩ }
+
+/-- `p->bufcount = oldcount` (parser_state_delimiters): back to an earlier, smaller count -/
+def truncBufM (m : MP) (n : Nat) : MP :=
+  { p := { m.p with buf := m.p.buf.take n }, k := m.k, sgen := m.sgen,
+    fault := m.fault || !decide (n ≤ m.p.buf.length),
+    capok := ⟨Nat.le_trans (by rw [List.length_take]; exact Nat.min_le_right _ _) m.capok.1, m.capok.2.1, m.capok.2.2⟩ }
+
+/-- `parser_state_delimiters`: push the delimiters behind the scratch contents, read them back, restore the count -/
+def stateDelimsM (m : MP) : List B × MP :=
+  let old := m.p.buf.length
+  let m1 := pushBytesM m (delimiters m.p)
+  (m1.p.buf.drop old, truncBufM m1 old)
+
 /-- a machine state from its parts (used by the driver for the operations that are only in the capacity overlay: clone,
     `parser/insert`, `parser/state`); a capacity below its count -- excluded by `Props.C11.capacity_invariant` -- is raised to it -/
 def MP.ofParts (p : Parser) (k : Caps) (sgen : Nat) (fault : Bool) : MP :=
